@@ -21,6 +21,21 @@ fn main() {
         println!("DIGEST {:016x}", melverif::mon::c03::scenario_digest(seed));
         return;
     }
+    if property == "probe-stack" {
+        // melverif probe-stack <family> <size> <stack KiB> <exec|apply>: see mon::c09::probe_stack. The probe runs on
+        // a thread with the given stack (spawned threads have 2 MiB by default, the main thread 8 MiB); a stack
+        // overflow aborts the process, so the caller runs this in a subprocess and looks at how it ended.
+        let family = args.get(2).cloned().unwrap_or_default();
+        let size: u16 = args.get(3).and_then(|s| s.parse().ok()).unwrap_or(1000);
+        let stack_kib: usize = args.get(4).and_then(|s| s.parse().ok()).unwrap_or(2048);
+        let mode = args.get(5).cloned().unwrap_or_else(|| "exec".into());
+        let h = std::thread::Builder::new().stack_size(stack_kib << 10).spawn(move || melverif::mon::c09::probe_stack(&family, size, &mode)).unwrap();
+        match h.join() {
+            Ok(s) => println!("RETURNED {}", s),
+            Err(_) => println!("PANICKED"),
+        }
+        return;
+    }
     let thorough = arg(&args, "--tier").map(|t| t == "thorough").unwrap_or(false);
     let seed: u64 = arg(&args, "--seed").and_then(|s| s.parse().ok()).unwrap_or(1);
     let shard0: u64 = arg(&args, "--shard").and_then(|s| s.parse().ok()).unwrap_or(0);
